@@ -344,3 +344,44 @@ Fixpoint seg_bound (pis : list (list Z)) (u : Z) (rest : list Z) : Z :=
   end.
 Definition seg_cert_ok (g : graph) (pis : list (list Z)) (s t : Z) (inc p : list Z) : bool :=
   forallb (feasible g) pis && (length pis =? S (length inc))%nat && (seg_bound pis s (inc ++ [t]) =? weight g p).
+
+(* ------------------------------------------------------------------ uniqueness certificate for an explicit answer.
+   An edge u -> v of the path p is *forced* when v is the only successor of u (and u is not the destination), or u is
+   the only predecessor of v (and v is not the source).  Starting from the anchors (source, destination, the listed
+   elements) membership in any route of the request propagates forwards through only-successor edges and backwards
+   through only-predecessor edges; if that reaches a forcing end of every edge of p, p is the only route of the request. *)
+Definition only_succ (g : graph) (u v : Z) : bool :=
+  match succs g u with [(x, _)] => x =? v | _ => false end.
+Definition only_pred (g : graph) (u v : Z) : bool :=          (* every edge into v leaves u *)
+  forallb (fun r : Z * list (Z * Z) => if memZ v (map fst (succs g (fst r))) then fst r =? u else true) g.
+Definition ffwd (g : graph) (t u v : Z) : bool := only_succ g u v && negb (u =? t).
+Definition fbwd (g : graph) (s u v : Z) : bool := only_pred g u v && negb (v =? s).
+
+Fixpoint fgo (g : graph) (t : Z) (A : list Z) (u : Z) (fu : bool) (l : list Z) : list bool :=
+  match l with
+  | [] => []
+  | v :: l' => let fv := memZ v A || (fu && ffwd g t u v) in fv :: fgo g t A v fv l'
+  end.
+Definition fscan (g : graph) (t : Z) (A p : list Z) : list bool :=
+  match p with [] => [] | x :: l => let fx := memZ x A in fx :: fgo g t A x fx l end.
+(* run on rev p: two successive elements v, u of rev p are the edge u -> v of p *)
+Fixpoint bgo (g : graph) (s : Z) (A : list Z) (v : Z) (bv : bool) (l : list Z) : list bool :=
+  match l with
+  | [] => []
+  | u :: l' => let bu := memZ u A || (bv && fbwd g s u v) in bu :: bgo g s A u bu l'
+  end.
+Definition bscan (g : graph) (s : Z) (A p : list Z) : list bool :=
+  rev (match rev p with [] => [] | x :: l => let bx := memZ x A in bx :: bgo g s A x bx l end).
+Fixpoint orl (a b : list bool) : list bool :=
+  match a, b with x :: a', y :: b' => (x || y) :: orl a' b' | _, _ => [] end.
+Fixpoint echeck (g : graph) (s t : Z) (p : list Z) (M : list bool) : bool :=
+  match p, M with
+  | u :: ((v :: _) as p'), mu :: ((mv :: _) as M') =>
+      ((ffwd g t u v && mu) || (fbwd g s u v && mv)) && echeck g s t p' M'
+  | [_], [_] => true
+  | _, _ => false
+  end.
+Definition explicit_forced (n : net) (inc : list Z) (s t : Z) (p : list Z) : bool :=
+  let g := ngraph n in
+  let A := s :: t :: inc in
+  echeck g s t p (orl (fscan g t A p) (bscan g s A p)).
